@@ -316,7 +316,21 @@ func GenPSet(model string, r *core.Rand, o genOpts) PSet {
 		p["uptakeVelocity"] = one(r.Range(0, 1e-3))
 		p["durationInSeconds"] = one(deltaT(r))
 	case "Storage":
-		return storagePSet(desc, r, r.IntRange(2, 6))
+		ps := storagePSet(desc, r, r.IntRange(2, 6))
+		if r.Bool(0.2) {
+			// a table that starts at a dead storage, with levels above a datum, instead of at (volume 0, level 0): a cold
+			// start (volume 0) then lies below the first knot, where every column is held at its first value (area 0 and no
+			// release at the first knot, as in storagePSet: with a surface or a release held below the first knot the
+			// kernel cannot stop the volume from going negative)
+			vi, li := paramIndex(desc, "volumes"), paramIndex(desc, "levels")
+			top := ps[vi][len(ps[vi])-1]
+			v0, l0 := top*r.Range(0.02, 0.3), pick(r, 0, r.Range(0.5, 300))
+			for i := range ps[vi] {
+				ps[vi][i] += v0
+				ps[li][i] += l0
+			}
+		}
+		return ps
 	case "StorageDissolvedDecay":
 		p["DeltaT"] = one(deltaT(r))
 		p["doStorageDecay"] = one(pick(r, 0, 1))
